@@ -5,7 +5,7 @@ from __future__ import annotations
 import ast
 
 from ..core.cfg import CFG
-from ..core.repo import (AnalysisError, Repo, call_name, calls_in, definitions, dotted, is_const,
+from ..core.repo import (AnalysisError, Repo, call_name, calls_in, definitions, dotted, func_params, is_const,
                          kwarg, names_in, unparse, walk_no_nested_defs)
 from ..domains.codec import WriterModel
 from .c01 import KINDS, eval_pred
@@ -117,6 +117,11 @@ def run(check, repo: Repo) -> None:
     ok = bool(st_upd) and "new_state[new_param][key] = value.to(device)" in unparse(recon) and "self._optimizer.state.clear()" in unparse(recon)
     check.decide(ok, "C05-R2", "reconnect: optimizer state (moments) is re-keyed to the new parameters and moved to their device", "", omod.line(recon),
                  fail_detail="optimizer state is not re-mapped onto the new parameter tensors")
+    from ..domains.alias import shared_mutable_values
+    sh = shared_mutable_values(recon)
+    check.decide(not sh, "C05-R2", "reconnect: every parameter receives its own state dict (no shared mutable value)", "", omod.line(sh[0][0]) if sh else omod.line(recon),
+                 fail_detail="; ".join(d for _, d in sh) + ": with two or more state-carrying tensors in one optimizer (e.g. Adam on descan shifts + scan positions) the moments and the "
+                             "step counter of all parameters alias one dict — the resumed optimisation diverges from the uninterrupted one")
     ok = "self._scheduler.optimizer = self._optimizer" in unparse(recon)
     check.decide(ok, "C05-R2", "reconnect: the scheduler is re-bound to the optimizer", "", omod.line(recon), fail_detail="scheduler not re-bound")
 
@@ -219,6 +224,45 @@ def run(check, repo: Repo) -> None:
     ct = unparse(clone)
     ok = "cloned.logger = self.logger.clone()" in ct and "cloned.to(device)" in ct
     check.decide(ok, "C05-R6", "clone: logger and device are set on both arms", "", tmod.line(clone), fail_detail="clone does not restore logger / device after either arm")
+
+    # ---- R7 recorded preprocessing parameters are the ones that were used ---------------------------------------------------------
+    DMm = "quantem.diffractive_imaging.dataset_models"
+    dmod, pre = repo.func(f"{DMm}:PtychographyDatasetRaster.preprocess")
+    bmod2, pset = repo.func(f"{PB}:PtychographyBase.obj_padding_px@setter")
+    check.analysed(f"{DMm}:PtychographyDatasetRaster.preprocess", f"{PB}:PtychographyBase.obj_padding_px@setter")
+    rec_dict = next((n.value for n in walk_no_nested_defs(pre) if isinstance(n, ast.Assign) and dotted(n.targets[0]) == "self._preprocessing_params" and isinstance(n.value, ast.Dict)), None)
+    if rec_dict is None:
+        raise AnalysisError("preprocess: `self._preprocessing_params = {…}` not found")
+    params = set(func_params(pre))
+    keys = [k.value for k in rec_dict.keys if isinstance(k, ast.Constant)]
+    check.floor("recorded preprocessing parameters", len(keys), 6)
+    unknown = [k for k in keys if k not in params]
+    check.decide(not unknown, "C05-R7", "preprocess: every recorded preprocessing parameter is a parameter of preprocess (from_file replays them as keywords)", str(keys), dmod.line(rec_dict),
+                 fail_detail=f"recorded keys {unknown} are not parameters of preprocess: the automatic dataset reload raises / ignores them")
+    wrong = [k.value for k, v in zip(rec_dict.keys, rec_dict.values) if isinstance(k, ast.Constant) and not k.value.startswith("plot_")
+             and not (isinstance(v, ast.Name) and v.id == k.value)]
+    check.decide(not wrong, "C05-R7", "preprocess: each recorded value is the argument of the same name (plot_* switches aside)", "", dmod.line(rec_dict),
+                 fail_detail=f"keys {wrong} are recorded with another value than the argument that was used: the reloaded dataset is preprocessed differently")
+    # the padding setter re-records the EFFECTIVE padding (after the power-of-two adjustment) — the value the positions and patch indices were built with
+    store = next((n for n in walk_no_nested_defs(pset) if isinstance(n, ast.Assign) and dotted(n.targets[0]) == "self._obj_padding_px"), None)
+    if store is None:
+        raise AnalysisError("obj_padding_px setter: store to self._obj_padding_px not found")
+    effective = {"self.obj_padding_px", "self._obj_padding_px"}
+    if isinstance(store.value, ast.Name):
+        later = [n for n in walk_no_nested_defs(pset) if isinstance(n, (ast.Assign, ast.AugAssign)) and n.lineno > store.lineno
+                 and any(isinstance(t, ast.Name) and t.id == store.value.id for t in ast.walk(n.targets[0] if isinstance(n, ast.Assign) else n.target))]
+        if not later:
+            effective.add(store.value.id)
+    rec_st = [n for n in walk_no_nested_defs(pset) if isinstance(n, ast.Assign) and isinstance(n.targets[0], ast.Subscript)
+              and unparse(n.targets[0].value).endswith("_preprocessing_params") and is_const(n.targets[0].slice, "obj_padding_px")]
+    check.decide(len(rec_st) == 1 and unparse(rec_st[0].value) in effective and rec_st[0].lineno > store.lineno, "C05-R7",
+                 "obj_padding_px setter: the padding recorded for the automatic reload is the effective padding that was stored and used", unparse(rec_st[0].value) if rec_st else "",
+                 bmod2.line(rec_st[0]) if rec_st else bmod2.line(pset),
+                 fail_detail=f"recorded value is `{unparse(rec_st[0].value) if rec_st else None}`, the effective padding is {sorted(effective)}: after a power-of-two adjustment the reloaded "
+                             f"dataset is preprocessed with another padding — scan positions and patch indices shift")
+    used = [unparse(c.args[0]) for c in calls_in(pset) if (call_name(c) or "") in ("self.dset._set_initial_scan_positions_px", "self.dset._set_patch_indices") and c.args]
+    check.decide(len(used) == 2 and all(u in effective for u in used), "C05-R7", "obj_padding_px setter: scan positions and patch indices are rebuilt with the effective padding", str(used),
+                 bmod2.line(pset), fail_detail=f"the dataset is rebuilt with {used}, not with {sorted(effective)}")
 
 
 def _reaches_reconnect(repo: Repo, mod, cls, to: ast.FunctionDef, depth: int):
